@@ -104,6 +104,7 @@ type c16Cfg struct {
 	streams  bool
 	user     string
 	pass     string
+	va       *vref.VAsset // set for an asset whose segment durations vary: numbers and instants come from the reference model of the asset
 }
 
 func (c c16Cfg) assetPath() string {
@@ -180,6 +181,9 @@ func (e *c16Env) repsOf(c c16Cfg) ([]c16Rep, error) {
 // ref returns what livesim2 itself serves for the segment addressed by addr (number or time).
 func (e *c16Env) ref(c c16Cfg, rep string, addr uint64, nr uint32) ([]byte, int) {
 	late := (int64(nr)+1)*c.segDurMS() + 4000
+	if c.va != nil {
+		late = vref.TicksToMSCeil(c.va.Ref.LiveEnd(int64(nr)), c.va.Ref.TS) + 4000
+	}
 	name := fmt.Sprintf("%s/%d.m4s", rep, addr)
 	if reps, err := e.repsOf(c); err == nil {
 		for _, r := range reps {
@@ -304,7 +308,12 @@ func (e *c16Env) create(s *vrt.Sched, c c16Cfg, dest string, testNow, dur *int) 
 // firstNr: the first segment that is not yet available at nowMS.
 func c16FirstNr(nowMS int64, atoMS int) int64 { return (nowMS + int64(atoMS)) / c16SegMS }
 
-func (c c16Cfg) firstNr(nowMS int64, atoMS int) int64 { return (nowMS + int64(atoMS)) / c.segDurMS() }
+func (c c16Cfg) firstNr(nowMS int64, atoMS int) int64 {
+	if c.va != nil {
+		return c.va.Ref.LastEnded(nowMS, int64(atoMS)) + 1
+	}
+	return (nowMS + int64(atoMS)) / c.segDurMS()
+}
 
 func (e *c16Env) step(ss *c16Session) bool {
 	code, _ := e.api("GET", "/api/cmaf-ingests/"+ss.id+"/step", nil)
@@ -635,6 +644,11 @@ func TestVerifC16(t *testing.T) {
 		{name: "wave2997-tltime", asset: "WAVE/vectors/cfhd_sets/14.985_29.97_59.94/t1/2022-10-17", segMS: 2002, prefix: "segtimeline_1/", mpd: "stream.mpd", timeAddr: true},
 		{name: "testpic8s-number", asset: "testpic_8s", segMS: 8000, mpd: "Manifest.mpd"},
 	}
+	// alternating 4 s / 8 s segments: the step following a short segment and the one following a long one
+	if va, err := vAsset(vBundledRoot, "testpic_alt_seg_dur_stl"); err == nil {
+		cfgs = append(cfgs, c16Cfg{name: "altdur-number", asset: "testpic_alt_seg_dur_stl", mpd: "Manifest.mpd", va: va},
+			c16Cfg{name: "altdur-tltime", asset: "testpic_alt_seg_dur_stl", prefix: "segtimeline_1/", mpd: "Manifest.mpd", timeAddr: true, va: va})
+	}
 	const rtStartMS = int64(1_700_000_000_700)
 
 	newMgr := func() {
@@ -662,9 +676,16 @@ func TestVerifC16(t *testing.T) {
 		maxK = 4
 	}
 	for _, c := range cfgs {
-		for _, now := range stepNows {
+		nows := stepNows
+		if c.va != nil {
+			nows = []int{25000, 30000, 37000}
+		}
+		for _, now := range nows {
 			for k := 0; k <= maxK; k++ {
-				if quick && (k == 0 || k == 2) && now != 10000 {
+				if quick && (k == 0 || k == 2) && now != 10000 && c.va == nil {
+					continue
+				}
+				if c.va != nil && k < 3 {
 					continue
 				}
 				now, k := now, k
@@ -687,6 +708,9 @@ func TestVerifC16(t *testing.T) {
 	}
 	for _, c := range cfgs {
 		c := c
+		if c.va != nil {
+			continue // the remaining programs count segments by a constant duration
+		}
 		// P2: DELETE concurrent with a stepping client
 		add("steps+delete", c, false, func(e *c16Env, s *vrt.Sched, c c16Cfg) {
 			ss, err := e.create(s, c, "p2", c16P(10000), nil)
